@@ -248,3 +248,220 @@ def r09c(ctx, rep):
                                      "Number::is_zero no longer decides through PartialEq (it inspects the representation): "
                                      "a zero carried in another representation is not recognised — zero-divisor guards "
                                      "built on it let it through", [iz.span])
+
+
+# ---------------------------------------------------------------------------------- C08
+
+BINOPS = {
+    "add": "<&marwood::number::Number as std::ops::Add>::add",
+    "sub": "<&marwood::number::Number as std::ops::Sub>::sub",
+    "mul": "<&marwood::number::Number as std::ops::Mul>::mul",
+    "div": "<&marwood::number::Number as std::ops::Div>::div",
+    "rem": "<&marwood::number::Number as std::ops::Rem>::rem",
+    "quotient": "marwood::number::Number::quotient",
+}
+UNOPS = ["abs", "round", "floor", "ceil", "truncate", "pow", "numerator", "denominator", "to_exact"]
+# Reviewed obligations (exact key -> reason): operations that are unchecked in form but cannot misbehave for any value
+# reaching them from Scheme. Each reason names the guard or bound it rests on.
+R08_REVIEWED = {
+    "R08a|rem|BigInt,Rational|Ratio<i32>::new":
+        "only on the non-integer-rhs branch; remainder/modulo pop their operands with pop_integer and odd?/even? pass Fixnum 2, "
+        "so no Scheme caller reaches it with a non-integer rational divisor",
+    "R08a|rem|Fixnum,Rational|narrow:i64->i32":
+        "the narrowed value is the remainder, whose magnitude is below the divisor's i32 numerator/denominator",
+    "R08a|rem|Rational,Fixnum|Overflow(Rem):i64":
+        "needs dividend i64::MIN, but the dividend is Ratio<i32>::to_i64()",
+    "R08a|rem|Rational,Fixnum|RemainderByZero:i64":
+        "every Scheme caller rejects a zero divisor first (remainder/modulo test is_zero, odd?/even? pass 2)",
+    "R08a|quotient|Fixnum,Rational|DivisionByZero:i64":
+        "the quotient builtin rejects a zero divisor in any representation through is_zero before calling",
+    "R08a|quotient|Rational,Fixnum|DivisionByZero:i64":
+        "the quotient builtin rejects a zero divisor in any representation through is_zero before calling",
+    "R08a|quotient|Rational,Fixnum|Overflow(Div):i64":
+        "needs dividend i64::MIN, but the dividend is Ratio<i32>::to_i64()",
+}
+RATIO_TOTAL = ("trunc", "round",   # trunc = numer/denom with denom > 0; round adds +-1 to a value with |trunc| <= i32::MAX/2
+               "checked_add", "checked_sub", "checked_mul", "checked_div", "numer", "denom", "is_integer", "to_integer",
+               "from_integer", "to_f64", "to_i64", "to_i32", "to_u64", "to_u32", "to_usize", "clone", "eq", "partial_cmp",
+               "cmp", "ne", "lt", "le", "gt", "ge", "from", "into", "from_f64", "hash", "fmt", "is_zero")
+
+
+import re as _re
+PRIM_OP = _re.compile(r"^<&?(i64|i32|u64|u32|usize|i128) as std::ops::(Add|Sub|Mul|Div|Rem|Neg)(?:<&?\1>)?>::(add|sub|mul|div|rem|neg)$")
+
+
+def _ratio_call(c, fa):
+    """(method, how) if the call is an operation on a fixed-width num::rational::Ratio"""
+    text = fa or c
+    if "num::rational::Ratio<i32>" not in text and "num::rational::Ratio<i64>" not in text and \
+            "num::rational::Ratio::<i32>" not in text and "num::rational::Ratio::<i64>" not in text:
+        return None
+    if "BigInt" in text.split("::")[-1]:
+        return None
+    m = text.rsplit("::", 1)[-1]
+    m = m.split("<")[0]
+    return m
+
+
+def exact_arm_ops(fn, reg, rf=None):
+    """unchecked fixed-width operations in a region: list of (op-key, description, loc)"""
+    rf = rf or region_facts(fn, reg)
+    out = []
+    for kind, loc, bb, t in rf["asserts"]:
+        if kind.startswith("Overflow") or kind in ("DivisionByZero", "RemainderByZero", "OverflowNeg"):
+            # `x % const` / `x / const` with a non-zero constant: the zero assert is vacuous
+            if kind in ("DivisionByZero", "RemainderByZero"):
+                c = op_const(t["ops"][0]) if t["ops"] else None
+                if c is not None and c.get("int", 0) != 0:
+                    continue
+            ty = None
+            for o in t["ops"]:
+                p = op_place(o)
+                if p is not None:
+                    ty = p["ty"]
+            out.append(("%s:%s" % (kind, ty or "int"), "unchecked %s on %s (panics in debug builds, wraps in release)" % (kind, ty or "an integer"), loc))
+    for op, aty, loc, bb, s in rf["bins"]:
+        if op in ("Div", "Rem") and aty in ("i64", "i32", "u64", "u32", "usize", "i128"):
+            # overflow of MIN / -1 is a separate assert in MIR (`Overflow(Div)`) — covered above; count the raw op once
+            pass
+    for ck, frm, to, loc, bb, s in rf["casts"]:
+        if ck == "IntToInt" and frm in ("i64", "i128", "u64", "usize") and to in ("i32", "u32", "i16", "u16"):
+            # must be dominated by the success edge of a fit test on the same value
+            src = fn.origin(s["rv"]["a"])
+            ok = False
+            for c, fa, l2, b2, t2 in rf["calls"]:
+                if c.endswith("Option::<T>::is_some") and fn.dominates(b2, bb):
+                    o = fn.origin(t2["args"][0])
+                    if o[0] == "call" and o[1]["fnargs"].endswith("::to_i32"):
+                        v = fn.origin(o[1]["args"][0])
+                        if _same_value(src, v):
+                            # on the true edge?
+                            sw = fn.blocks[t2["target"]]["term"] if t2["target"] is not None else None
+                            if sw and sw["k"] == "switch":
+                                tru = sw["otherwise"]
+                                if fn.dominates(tru, bb):
+                                    ok = True
+            if not ok:
+                out.append(("narrow:%s->%s" % (frm, to), "narrowing cast %s as %s not guarded by a to_i32().is_some() test on the same value" % (frm, to), loc))
+    for c, fa, loc, bb, t in rf["calls"]:
+        pm = PRIM_OP.match(fa or "")
+        if pm:
+            out.append(("%s:%s" % (pm.group(3), pm.group(1)), "unchecked primitive %s on %s through the reference operator impl "
+                        "(overflow / zero divisor: panic or silent wrap)" % (pm.group(3).lower(), pm.group(1)), loc))
+            continue
+        m = _ratio_call(c, fa)
+        if m is None:
+            continue
+        if m in RATIO_TOTAL:
+            continue
+        tyw = "Ratio<i64>" if "i64" in (fa or c) else "Ratio<i32>"
+        out.append(("%s::%s" % (tyw, m), "unchecked %s::%s (fixed-width rational arithmetic overflows: panic in debug, wrong value in release)" % (tyw, m), loc))
+    return out
+
+
+def _same_value(a, b):
+    def sig(o):
+        if o[0] == "arg":
+            return ("arg", o[1], tuple((e.get("n") or e.get("dc")) if isinstance(e, dict) else e for e in o[2]))
+        if o[0] == "local":
+            return ("local", o[1], tuple((e.get("n") or e.get("dc")) if isinstance(e, dict) else e for e in o[2]))
+        return None
+    sa, sb = sig(a), sig(b)
+    return sa is not None and sa == sb
+
+
+def r08a(ctx, rep):
+    facts = ctx["facts"]
+    rep.rule("R08a", "checked-arithmetic discipline: in every arm of +, -, *, /, remainder, quotient (per representation "
+             "pair) and of abs/round/floor/ceil/truncate/pow/numerator/denominator/to_exact (per representation) whose "
+             "operands are all exact, no primitive fixed-width operation is left unchecked: (1) no overflow / "
+             "division assert on a machine integer, (2) every narrowing cast is dominated by the success edge of a "
+             "to_i32().is_some() test of the same value, (3) on fixed-width Ratio only total operations "
+             "(checked_*, accessors, conversions, comparison) are called — Ratio::new, the / % operators, pow, abs, "
+             "round, floor, ceil, trunc overflow silently or panic. Necessary for 'an exact result never differs from the "
+             "true value' (release builds wrap) and for C06 (debug builds panic).")
+    nb = 0
+    for name, path in BINOPS.items():
+        fn = need(rep, "R08a", facts, path)
+        if fn is None:
+            continue
+        arms = number_arms(facts, fn)
+        for (x, y), reg in sorted(arms.items(), key=lambda kv: kv[0]):
+            if y in ("_", "*"):
+                if y == "_":
+                    missing, oth = reg
+                    rep.ok("R08a", "R08a|%s|%s,_|wildcard" % (name, x), "%s: lhs %s with rhs %s share a wildcard arm "
+                           "(reviewed: returns None for non-integers)" % (name, x, missing), [fn.span], nontrivial=False)
+                continue
+            nb += 1
+            if x not in EXACT or y not in EXACT:
+                continue
+            bodies = [(fn, reg)]
+            ops = []
+            for g, r in bodies:
+                ops += exact_arm_ops(g, r)
+            seen = {}
+            for k, desc, loc in ops:
+                seen.setdefault(k, []).append((desc, loc))
+            if not seen:
+                rep.ok("R08a", "R08a|%s|%s,%s" % (name, x, y), "%s(%s, %s): every fixed-width step is checked or widened" % (name, x, y), [fn.span])
+            for k, lst in sorted(seen.items()):
+                key = "R08a|%s|%s,%s|%s" % (name, x, y, k)
+                if key in R08_REVIEWED:
+                    rep.ok("R08a", key, "%s(%s, %s): %s — reviewed: %s" % (name, x, y, lst[0][0], R08_REVIEWED[key]),
+                           [l for _, l in lst])
+                else:
+                    rep.fail("R08a", key, "%s(%s, %s): %s" % (name, x, y, lst[0][0]), [l for _, l in lst])
+    rep.floor("R08a", "representation-pair arms of the binary operators", nb, 90)
+    nu = 0
+    for name in UNOPS:
+        fn = need(rep, "R08a", facts, "marwood::number::Number::" + name)
+        if fn is None:
+            continue
+        arms = number_arms(facts, fn, unary=True)
+        for (x,), reg in sorted(arms.items()):
+            nu += 1
+            if x not in EXACT:
+                continue
+            seen = {}
+            for k, desc, loc in exact_arm_ops(fn, reg):
+                seen.setdefault(k, []).append((desc, loc))
+            if not seen:
+                rep.ok("R08a", "R08a|%s|%s" % (name, x), "%s(%s): every fixed-width step is checked or widened" % (name, x), [fn.span])
+            for k, lst in sorted(seen.items()):
+                rep.fail("R08a", "R08a|%s|%s|%s" % (name, x, k), "%s(%s): %s" % (name, x, lst[0][0]), [l for _, l in lst])
+    rep.floor("R08a", "representation arms of the unary operations", nu, 20)
+
+
+def r08c(ctx, rep):
+    facts = ctx["facts"]
+    rep.rule("R08c", "derived operations are built from the primitive ones: Number::modulo is expressed through the "
+             "Rem and Add implementations of &Number (so it inherits their per-representation treatment) and contains no "
+             "representation-specific arithmetic of its own; the owned operator impls delegate to the &Number impls.")
+    f = need(rep, "R08c", facts, "marwood::number::Number::modulo")
+    if f is not None:
+        cs = [callee(t) for bb, t in f.calls()]
+        rems = sum(1 for c in cs if c == BINOPS["rem"])
+        adds = sum(1 for c in cs if c == BINOPS["add"])
+        own = disc_switches(facts, f, NUMBER)
+        rf = region_facts(f, set(range(len(f.blocks))))
+        cmpz = [c for c in cs if c in (EQ, CMP) or "PartialOrd" in c]
+        key = "R08c|modulo|shape"
+        # flooring modulo from truncating remainder needs two remainders and one addition: ((a rem b) + b) rem b
+        if rems == 2 and adds == 1 and not own:
+            rep.ok("R08c", key, "modulo is ((a rem b) + b) rem b over the &Number operators", [f.span])
+        else:
+            rep.fail("R08c", key, "modulo is no longer ((a rem b) + b) rem b over the &Number operators (rem x%d, add x%d, "
+                     "own representation match: %s, sign comparisons: %d): a sign fix-up written by hand must treat a zero "
+                     "remainder and every representation pair itself" % (rems, adds, bool(own), len(cmpz)), [f.span])
+    for op in ("Add", "Sub", "Mul", "Div", "Rem"):
+        owned = facts.fn("<marwood::number::Number as std::ops::%s>::%s" % (op, op.lower()))
+        ref = "<&marwood::number::Number as std::ops::%s>::%s" % (op, op.lower())
+        if owned is None:
+            rep.anchor_lost("R08c", "owned %s impl" % op)
+            continue
+        ok = any(callee(t) == ref for bb, t in owned.calls()) and not disc_switches(facts, owned, NUMBER)
+        (rep.ok if ok else rep.fail)("R08c", "R08c|owned-%s-delegates" % op.lower(),
+                                     "Number %s Number delegates to &Number %s &Number" % (op, op) if ok else
+                                     "the owned %s impl no longer delegates to the &Number impl: two tables to keep in step" % op,
+                                     [owned.span])
